@@ -194,8 +194,20 @@ func (c *Ctx) c19Server(rel, name string) {
 		r.Bad("C19/LISTENER", name+":Start", p.Pos(start.Pos()), "Start does not wait for ctx.Done(): the listener is never closed on shutdown")
 	} else if ret := (&eng.Search{Target: eng.IsReturnOf(waitFn), Avoid: isLisClose, Deep: true}).After(doneRecv); ret != nil {
 		r.Bad("C19/LISTENER", name+":Start", p.InstrPos(ret), "a path from ctx.Done() to return does not close the listener: new connections are still accepted after shutdown was requested")
+	} else if blk := (&eng.Search{Target: func(in ssa.Instruction) bool {
+		switch x := in.(type) {
+		case *ssa.Call:
+			return wgCall(x.Common(), "Wait", fWG) || eng.CalleeName(x.Common()) == "time.Sleep"
+		case *ssa.UnOp:
+			return x.Op == token.ARROW && in != doneRecv
+		case *ssa.Select:
+			return x.Blocking
+		}
+		return false
+	}, Avoid: isLisClose, Deep: true}).After(doneRecv); blk != nil {
+		r.Bad("C19/LISTENER", name+":Start", p.InstrPos(blk), "after ctx.Done() the server waits at %s before the listener is closed: while sessions that were open at shutdown drain, new connections are still accepted and greeted (and counted, so the drain may never end)", p.InstrPos(blk))
 	} else {
-		r.Ok("C19/LISTENER", name+":Start", p.InstrPos(doneRecv), "listener closed on every path after ctx.Done()")
+		r.Ok("C19/LISTENER", name+":Start", p.InstrPos(doneRecv), "listener closed on every path after ctx.Done(), before anything else is waited for")
 	}
 	// serve: ctx.Done arm returns without notify
 	serve := p.Method(rel, "Server", "serve")
@@ -649,6 +661,15 @@ func (c *Ctx) c19Main() {
 			}
 			g := eng.StaticCallee(call.Common())
 			if g == nil {
+				// a wait called through a function value (a table of shutdown steps holding
+				// method values): the call graph resolves the site
+				if !call.Call.IsInvoke() {
+					for _, h := range p.Callees(call) {
+						if u := eng.UnwrapBound(h); u == sd || u == pd || u == join {
+							return true
+						}
+					}
+				}
 				return false
 			}
 			if g == sd || g == pd || g == join {
@@ -664,8 +685,16 @@ func (c *Ctx) c19Main() {
 		case ctxV == nil || len(cancels) == 0:
 			r.Undecided("C19/DRAIN/cancel-first", "main", p.InstrPos(startCall), "cannot identify the context the services are started with, or its cancel function")
 		default:
-			if hit := eng.ReachPhiAware(startCall, isWait, isCancel); hit != nil {
-				r.Bad("C19/DRAIN/cancel-first", "main", p.InstrPos(hit), "main reaches %s without having cancelled the services' context on that path (e.g. the shutdown triggered by a failed service rather than a signal): the listeners keep accepting while Drain runs, sessions started behind it are cut off, and the retention scanner's Join blocks until the forced exit", eng.CalleeName(hit.(*ssa.Call).Common()))
+			nWaits := 0
+			eng.EachInstr(mainFn, func(in ssa.Instruction) {
+				if isWait(in) {
+					nWaits++
+				}
+			})
+			if nWaits == 0 {
+				r.Undecided("C19/DRAIN/cancel-first", "main", p.InstrPos(startCall), "no call of Drain/Join (direct, through a helper or through a function value) was found in main")
+			} else if hit := eng.ReachPhiAware(startCall, isWait, isCancel); hit != nil {
+				r.Bad("C19/DRAIN/cancel-first", "main", p.InstrPos(hit), "main reaches %s without having cancelled the services' context on that path (e.g. the shutdown triggered by a failed service rather than a signal): the listeners keep accepting while Drain runs, sessions started behind it are cut off, and the retention scanner's Join blocks until the forced exit", waitName(hit))
 			} else {
 				r.Ok("C19/DRAIN/cancel-first", "main", p.InstrPos(startCall), "every path from services.Start to Drain/Join cancels the services' context first")
 			}
@@ -1137,4 +1166,13 @@ func visitorSigOfType(t types.Type) bool {
 	}
 	_, isSlice := sig.Params().At(0).Type().Underlying().(*types.Slice)
 	return isSlice
+}
+
+func waitName(in ssa.Instruction) string {
+	if call, ok := in.(*ssa.Call); ok {
+		if n := eng.CalleeName(call.Common()); n != "" {
+			return n
+		}
+	}
+	return "a Drain/Join call made through a function value"
 }
